@@ -178,7 +178,7 @@ public:
           chk.VarViolIntty().at(aux).CheckViol(
                 { std::fabs(x - std::round(x)),
                   std::round(x) },
-                MPCD( sol_int_tol() ), INFINITY,
+                MPCD( sol_int_tol() ), 0.0,  // no relative tolerance
                 MPCD( GetModel() ).var_name(i));
       }
     }
